@@ -11,12 +11,13 @@ same change, it is neither "caught" nor "missed".  Results: out/sweep.json and a
 import os, sys, json, glob, shutil, subprocess, argparse, concurrent.futures as cf
 
 VERIF = os.path.dirname(os.path.dirname(os.path.abspath(__file__)))
+CHECK_ONLY = False
 
 
 def seed_job(d):
     base = os.path.basename(d)
     pid, _, name = base.partition("-")
-    cmd = ["/venv/bin/python", "-m", "vlib.seeded", pid, d, "--keep", name]
+    cmd = ["/venv/bin/python", "-m", "vlib.seeded", pid, d, "--keep", name] + (["--check-only"] if CHECK_ONLY else [])
     p = subprocess.run(cmd, cwd=VERIF, stdout=subprocess.PIPE, stderr=subprocess.STDOUT, text=True, timeout=4000)
     s = p.stdout
     try:
@@ -55,7 +56,10 @@ def main():
     ap.add_argument("--only", default="")
     ap.add_argument("--mutants-only", action="store_true")
     ap.add_argument("--seeds-only", action="store_true")
+    ap.add_argument("--check-only", action="store_true", help="seeds: do not repeat demo/tests, only apply + check")
     a = ap.parse_args()
+    global CHECK_ONLY
+    CHECK_ONLY = a.check_only
     only = set(x for x in a.only.split(",") if x)
     seeds = sorted(d for d in glob.glob(os.path.join(VERIF, "seeded", "C*")) if os.path.isdir(d))
     muts = sorted(glob.glob(os.path.join(VERIF, "mutants", "C*", "*.patch")))
